@@ -1071,6 +1071,44 @@ def lean_text(g):
     NCH = 8
     out.append("/-- the domain dealt round-robin into %d chunks (table theorems are proved per chunk, in parallel) -/" % NCH)
     out.append("def domainChunks : List (List Mod) := %s" % L(L(str(x) for x in dom[c::NCH]) for c in range(NCH)))
+    # ordered pairs inside a package: for every module its siblings (same parent package), dealt over the chunks
+    sib = {}
+    for m in g["domain"]:
+        sib.setdefault(m.rpartition(".")[0], []).append(m)
+    # ... and the modules that (transitively, statically) import it: "the dependency was imported first"
+    domset = set(g["domain"])
+    direct = {}
+    for m in g["domain"]:
+        d = set()
+        for e in walk_events(g["nodes"][m]["body"]):
+            if e[0] in ("imp", "from", "star"):
+                t = e[2]
+                while t:
+                    d.add(t)
+                    t = t.rpartition(".")[0]
+                if e[0] == "from":
+                    d.update(e[2] + "." + n for n, _ in e[3])
+        direct[m] = {x for x in d if x in domset and x != m}
+    users = {m: set() for m in g["domain"]}
+    for m in g["domain"]:
+        seen, todo = set(), list(direct[m])
+        while todo:
+            x = todo.pop()
+            if x not in seen:
+                seen.add(x)
+                todo.extend(direct[x])
+        for x in seen:
+            users[x].add(m)
+    prs = []
+    for m in g["domain"]:
+        ms = [x for x in sib[m.rpartition(".")[0]] if x != m]
+        ms += sorted(users[m] - set(ms) - {m})
+        prs.append((m, ms))
+    prs = [p for p in prs if p[1]]
+    out.append("/-- table of ordered pairs (a, then m): for every module `a` the other modules of its package and the modules "
+               "that statically (transitively) import `a`; in %d chunks -/" % NCH)
+    out.append("def pairChunks : List (List (Mod × List Mod)) := %s" % L(
+        L("(%d, %s)" % (nid[a], L(str(nid[x]) for x in ms)) for a, ms in prs[c::NCH]) for c in range(NCH)))
     out.append("/-- the top-level package of the tree under test -/")
     out.append("def root : Mod := %d" % nid["ioflo"])
     out.append("namespace Mid")
